@@ -526,9 +526,12 @@ class UnlimitedCollector(ScoredCollector):
     """A collector that returns **all** scored results.
     """
 
-    def __init__(self, reverse=False):
+    def __init__(self, reverse=False, limit=None):
         ScoredCollector.__init__(self)
         self.reverse = reverse
+        # Every document is collected (and counted, grouped, ...); the limit
+        # only bounds the number of hits in the results
+        self.limit = limit
 
     # ScoredCollector.collect calls this
     def _collect(self, global_docnum, score):
@@ -542,7 +545,10 @@ class UnlimitedCollector(ScoredCollector):
         # document number to keep the order stable when documents have the
         # same score
         self.items.sort(key=lambda x: (0 - x[0], x[1]), reverse=self.reverse)
-        return self._results(self.items, docset=self.docset)
+        items = self.items
+        if self.limit:
+            items = items[:self.limit]
+        return self._results(items, docset=self.docset)
 
 
 # Sorting collector
